@@ -16,7 +16,7 @@ RULE = ("per generated instance (values, numbins) the exhaustive optimum of ever
 ASSUMPTIONS = ["O1 enumerates all sorted sum-vectors (n <= 10)", "ilp disagreements are re-solved with CBC preprocessing off; agreement then = inconclusive(solver)",
                "rnp: numbins <= 5 (numbins >= 6 is KF-rnp-k6, no value returned)"]
 FLOORS = {"quick": {"distinct_nontrivial": 3000, "cg.returns": 1000}, "thorough": {"distinct_nontrivial": 30000, "cg.returns": 10000}}
-CLASSES = ("small", "small", "ties", "equal", "perfect", "nearperfect", "powers", "onehuge", "zeros", "kgtn", "grid", "big")
+CLASSES = ("small", "small", "ties", "equal", "perfect", "nearperfect", "powers", "onehuge", "zeros", "kgtn", "grid", "big", "huge")
 
 
 def plan(tier, seed):
@@ -34,8 +34,8 @@ def draw_instance(rng):
     else:
         nmax = {1: 8, 2: 10, 3: 10, 4: 9, 5: 8}.get(k, 7)
         n = rng.randint(1, nmax) if rng.random() < 0.5 else rng.randint(max(1, nmax - 2), nmax)
-    if cls == "big":
-        n = min(n, 8)
+    if cls in ("big", "huge"):
+        n = min(n, 8 if cls == "big" else 6)
     return cls, k, gen.part_values(rng, cls, n, k)
 
 
